@@ -78,7 +78,7 @@ fn ref_sub(a: &RefVec, b: &RefVec) -> RefVec {
     ref_add(a, &ref_neg(b))
 }
 
-pub const PATHS: usize = 9;
+pub const PATHS: usize = 10;
 const PATH_NAMES: [&str; PATHS] = [
     "sum-of-singletons",
     "sum-with-explicit-zeros",
@@ -89,6 +89,7 @@ const PATH_NAMES: [&str; PATHS] = [
     "double-negation",
     "asset-expr-roundtrip",
     "cbor-roundtrip",
+    "decoded-with-an-entry-for-every-class",
 ];
 
 fn single(i: usize, amount: i128) -> CanonicalAssets {
@@ -166,6 +167,14 @@ fn build(v: &[i128; 3], p: usize) -> CanonicalAssets {
         8 => {
             let mut buf = Vec::new();
             ciborium::into_writer(&build(v, 0), &mut buf).unwrap();
+            ciborium::from_reader(buf.as_slice()).unwrap()
+        }
+        9 => {
+            // as a client may send it: an entry for every class, zero amounts written out (each decoded map iterates
+            // in an order of its own)
+            let all: std::collections::HashMap<AssetClass, i128> = (0..3).map(|i| (classes()[i].clone(), v[i])).collect();
+            let mut buf = Vec::new();
+            ciborium::into_writer(&all, &mut buf).unwrap();
             ciborium::from_reader(buf.as_slice()).unwrap()
         }
         _ => unreachable!(),
